@@ -1,10 +1,12 @@
 #!/usr/bin/env python3
-"""try_seed.py <Cxx> [<Cyy> ...]  — take the delivery of a sub-agent from /tmp/wt/<id>/seed, confirm its demonstration in the
+"""try_seed.py <Cxx> [<Cyy> ...] [--tag=r2]  — take the delivery of a sub-agent from /tmp/wt/<id>/seed, confirm its demonstration in the
 scratch worktree, store it under /verif/seeded/<id>/, apply the patch to /repo, run the quick checks named (default: the property
 itself) at two seeds, record which check reported a violation, and undo the change."""
 import sys, os, subprocess, json, shutil
-pid = sys.argv[1]; checks = sys.argv[2:] or [pid]
-wt = '/tmp/wt/%s' % pid; seed = os.path.join(wt, 'seed'); dst = '/verif/seeded/%s' % pid
+args = [a for a in sys.argv[1:] if not a.startswith('--tag=')]
+tag = ([a.split('=', 1)[1] for a in sys.argv[1:] if a.startswith('--tag=')] or [''])[0]
+pid = args[0]; checks = args[1:] or [pid]
+wt = '/tmp/wt/%s' % pid; seed = os.path.join(wt, 'seed'); dst = '/verif/seeded/%s%s' % (pid, ('_' + tag) if tag else '')
 os.makedirs(dst, exist_ok=True)
 for f in os.listdir(seed):
     if os.path.isfile(os.path.join(seed, f)) and os.path.getsize(os.path.join(seed, f)) < 2_000_000 and not f.endswith(('.o',)) and f not in ('demo',):
